@@ -9,29 +9,31 @@ open CC.DList (length_ne_zero_of_ne_nil insMany_fix selMap selMap_some selMap_ma
   eraseIdx_append_cons)
 
 theorem toArray_ofList (xs : List Nat) (m : Mem) :
-    toArray (ofList xs) m =
-      if m.alloc.1 then (.ok, (LSeq.toArray true xs).2, m.alloc.2) else (.errAlloc, none, m.alloc.2) := by
+    toArray (ofList t xs) m =
+      if (m.allocT t).1 then (.ok, (LSeq.toArray true xs).2, (m.allocT t).2) else (.errAlloc, none, (m.allocT t).2) := by
   unfold toArray LSeq.toArray
-  by_cases ha : m.alloc.1 = true
+  (try simp only [ofList_triple])
+  by_cases ha : (m.allocT t).1 = true
   · simp only [ha, Bool.not_true, Bool.false_eq_true, if_false, if_true, ofList_size]
     rw [ofList_head_ptrAt, collect_ofList _ _ _ 0 (by omega)]
     simp
   · simp [ha]
 
 theorem sort_ofList (sortFn : List Nat → List Nat) (hlen : ∀ l, (sortFn l).length = l.length) (xs : List Nat) (m : Mem) :
-    sort sortFn (ofList xs) m =
-      if xs.length = 1 then (.ok, ofList xs, m)
-      else if m.alloc.1 then (.ok, ofList (sortFn xs), m.alloc.2.free) else (.errAlloc, ofList xs, m.alloc.2) := by
+    sort sortFn (ofList t xs) m =
+      if xs.length = 1 then (.ok, ofList t xs, m)
+      else if (m.allocT t).1 then (.ok, ofList t (sortFn xs), ((m.allocT t).2.freeT t)) else (.errAlloc, ofList t xs, (m.allocT t).2) := by
   unfold sort
   rw [toArray_ofList]
   by_cases h1 : xs.length = 1
   · simp [h1]
   simp only [ofList_size, h1, if_false, LSeq.toArray]
-  by_cases ha : m.alloc.1 = true
+  (try simp only [ofList_triple])
+  by_cases ha : (m.allocT t).1 = true
   · simp only [ha, if_true, Bool.not_true, Bool.and_false, Bool.false_eq_true, and_false, if_false]
     rw [ofList_head_ptrAt]
-    obtain ⟨l', e, h1, h2, h3, h4, h5⟩ := writeBack_spec xs.length (sortFn xs) m.alloc.2
-      xs.length 0 (ofList xs) rfl (by omega) (by rw [hlen]; exact Nat.le_refl _)
+    obtain ⟨l', e, h1, h2, h3, h4, h5⟩ := writeBack_spec xs.length (sortFn xs) (m.allocT t).2
+      xs.length 0 (ofList t xs) rfl (by omega) (by rw [hlen]; exact Nat.le_refl _)
     rw [e]
     have hnodes : l'.nodes = sortFn xs := by
       apply ext_getD (by rw [h1, hlen])
@@ -44,9 +46,9 @@ theorem sort_ofList (sortFn : List Nat → List Nat) (hlen : ∀ l, (sortFn l).l
   · simp [ha]
 
 theorem filterMutLoop_ofList (p : Nat → Bool) : ∀ (rest kept : List Nat) (k : Nat) (m : Mem), rest.length ≤ k →
-    filterMutLoop p k (ofList (kept ++ rest)) (ptrAt (kept.length + rest.length) kept.length)
+    filterMutLoop p k (ofList t (kept ++ rest)) (ptrAt (kept.length + rest.length) kept.length)
         (if kept.length = 0 then none else some (kept.length - 1)) m =
-      (ofList (kept ++ rest.filter p), Mem.freeN (rest.length - (rest.filter p).length) m)
+      (ofList t (kept ++ rest.filter p), Mem.freeN t (rest.length - (rest.filter p).length) m)
   | [], kept, k, m, _ => by
     cases k <;> simp [filterMutLoop, ptrAt, Mem.freeN]
   | y :: ys, kept, 0, m, h => by simp at h
@@ -76,58 +78,59 @@ theorem filterMutLoop_ofList (p : Nat → Bool) : ∀ (rest kept : List Nat) (k 
         by_cases c : kept.length + 1 < kept.length + (ys.length + 1)
         · rw [if_pos c, if_pos (by omega)]; simp [Ptr.shiftDel]
         · rw [if_neg c, if_neg (by omega)]; rfl
-      rw [e1, eraseIdx_append_cons, filterMutLoop_ofList p ys kept k m.free (by simpa using h)]
+      rw [e1, eraseIdx_append_cons, filterMutLoop_ofList p ys kept k (m.freeT t) (by simpa using h)]
       have hle : (ys.filter p).length ≤ ys.length := List.length_filter_le _ _
       simp only [List.filter_cons, hp, Bool.false_eq_true, if_false, List.length_cons]
       rw [show ys.length + 1 - (List.filter p ys).length = (ys.length - (List.filter p ys).length) + 1 by omega]
       simp [Mem.freeN]
 
 theorem filterMut_ofList (p : Nat → Bool) (xs : List Nat) (m : Mem) :
-    filterMut p (ofList xs) m =
-      ((LSeq.filterMut p xs).1, ofList (LSeq.filterMut p xs).2, Mem.freeN (xs.length - (xs.filter p).length) m) := by
+    filterMut p (ofList t xs) m =
+      ((LSeq.filterMut p xs).1, ofList t (LSeq.filterMut p xs).2, Mem.freeN t (xs.length - (xs.filter p).length) m) := by
   unfold filterMut LSeq.filterMut
   cases xs with
   | nil => simp [Mem.freeN]
   | cons y ys =>
     simp only [ofList_size, List.length_cons, Nat.add_one_ne_zero, if_false, ofList_nodes, reduceCtorEq]
     rw [ofList_head_ptrAt]
-    have := filterMutLoop_ofList p (y :: ys) [] (ys.length + 1) m (by simp)
+    have := filterMutLoop_ofList (t := t) p (y :: ys) [] (ys.length + 1) m (by simp)
     simp only [List.nil_append, List.length_nil, Nat.zero_add, List.length_cons, if_true] at this ⊢
     rw [this]
 
 theorem addAll_ofList (xs ys : List Nat) (m : Mem) :
-    addAll (ofList xs) (ofList ys) m =
-      if ys = [] then (.ok, ofList xs, m)
-      else if (m.allocChain ys.length 0).1 then (.ok, ofList (LSeq.addAll xs ys).2.1, (m.allocChain ys.length 0).2)
-      else (.errAlloc, ofList xs, (m.allocChain ys.length 0).2) := by
+    addAll (ofList t xs) (ofList t2 ys) m =
+      if ys = [] then (.ok, ofList t xs, m)
+      else if (m.allocChain t ys.length 0).1 then (.ok, ofList t (LSeq.addAll xs ys).2.1, (m.allocChain t ys.length 0).2)
+      else (.errAlloc, ofList t xs, (m.allocChain t ys.length 0).2) := by
   unfold addAll LSeq.addAll
   by_cases hy : ys = []
   · subst hy; simp
   have hyl := length_ne_zero_of_ne_nil hy
   rw [ofList_size, if_neg hyl, if_neg hy, linkAllExternally_ofList]
-  by_cases ha : (m.allocChain ys.length 0).1 = true
+  simp only [ofList_triple]
+  by_cases ha : (m.allocChain t ys.length 0).1 = true
   case neg => simp [ha]
   simp only [ha, Bool.not_true, Bool.false_eq_true, if_false, if_true]
   by_cases hx : xs = []
   · subst hx
     simp [ofList, hyl]
   have hxl := length_ne_zero_of_ne_nil hx
-  have htp : (ofList xs).tail = some (xs.length - 1) := by simp [ofList, hxl]
+  have htp : (ofList t xs).tail = some (xs.length - 1) := by simp [ofList, hxl]
   have hpos : ∀ j, Ptr.pos (some j) = j := fun _ => rfl
   have e1 : xs.length - 1 + 1 = xs.length := by omega
   have hv1 : xs.length - 1 < xs.length := by omega
   simp only [ofList_size, hxl, if_false, htp, hpos, e1, ofList_nodes, Ptr.valid, hv1, decide_true, Mem.check_true]
   congr 1; congr 1
-  have := insMany_fix xs ys xs.length hx hy (Nat.le_refl _) ((ofList xs).insMany xs.length ys).head
+  have := insMany_fix xs ys xs.length hx hy (Nat.le_refl _) ((ofList t xs).insMany xs.length ys).head
     (some (xs.length + ys.length - 1)) ys.length rfl (by rw [if_neg hxl]) (by simp)
-  simpa using this
+  simp at this ⊢; exact this
 
 theorem addAllAt_ofList (xs ys : List Nat) (i : Nat) (m : Mem) :
-    addAllAt (ofList xs) (ofList ys) i m =
+    addAllAt (ofList t xs) (ofList t2 ys) i m =
       if (LSeq.addAllAt false xs ys i).1 = .ok ∧ ys ≠ [] then
-        (if (m.allocChain ys.length 0).1 then (.ok, ofList (LSeq.addAllAt false xs ys i).2.1, (m.allocChain ys.length 0).2)
-         else (.errAlloc, ofList xs, (m.allocChain ys.length 0).2))
-      else ((LSeq.addAllAt false xs ys i).1, ofList xs, m) := by
+        (if (m.allocChain t ys.length 0).1 then (.ok, ofList t (LSeq.addAllAt false xs ys i).2.1, (m.allocChain t ys.length 0).2)
+         else (.errAlloc, ofList t xs, (m.allocChain t ys.length 0).2))
+      else ((LSeq.addAllAt false xs ys i).1, ofList t xs, m) := by
   unfold addAllAt LSeq.addAllAt
   by_cases hy : ys = []
   · subst hy; simp
@@ -139,7 +142,8 @@ theorem addAllAt_ofList (xs ys : List Nat) (i : Nat) (m : Mem) :
     simp only [hi, if_true, bne_self_eq_false, Bool.false_eq_true, if_false, hy, Bool.false_eq_true, ne_eq, not_false_eq_true,
       and_self]
     rw [linkAllExternally_ofList]
-    by_cases ha : (m.allocChain ys.length 0).1 = true
+    simp only [ofList_triple]
+    by_cases ha : (m.allocChain t ys.length 0).1 = true
     case neg => simp [ha]
     simp only [ha, Bool.not_true, Bool.false_eq_true, if_false, if_true]
     have hpos : ∀ j, Ptr.pos (some j) = j := fun _ => rfl
@@ -160,32 +164,32 @@ theorem addAllAt_ofList (xs ys : List Nat) (i : Nat) (m : Mem) :
   · simp [hi, hy]
 
 theorem splice_ofList (xs ys : List Nat) (m : Mem) :
-    splice (ofList xs) (ofList ys) m =
-      (.ok, ofList (LSeq.splice xs ys).2.1, ofList (if ys = [] then ys else (LSeq.splice xs ys).2.2), m) := by
+    splice (ofList t xs) (ofList t2 ys) m =
+      (.ok, ofList t (LSeq.splice xs ys).2.1, ofList t2 (if ys = [] then ys else (LSeq.splice xs ys).2.2), m) := by
   unfold splice LSeq.splice
   by_cases hy : ys = []
   · subst hy; simp
   have hyl := length_ne_zero_of_ne_nil hy
   rw [ofList_size, if_neg hyl, if_neg hy]
-  have ht2 : (ofList ys).tail = some (ys.length - 1) := by simp [ofList, hyl]
+  have ht2 : (ofList t2 ys).tail = some (ys.length - 1) := by simp [ofList, hyl]
   by_cases hx : xs = []
   · subst hx
     simp [ofList, hyl]
   have hxl := length_ne_zero_of_ne_nil hx
-  have htp : (ofList xs).tail = some (xs.length - 1) := by simp [ofList, hxl]
+  have htp : (ofList t xs).tail = some (xs.length - 1) := by simp [ofList, hxl]
   have hpos : ∀ j, Ptr.pos (some j) = j := fun _ => rfl
   have e1 : xs.length - 1 + 1 = xs.length := by omega
   have hv1 : xs.length - 1 < xs.length := by omega
   simp only [ofList_size, hxl, if_false, htp, ht2, hpos, e1, ofList_nodes, Ptr.valid, hv1, decide_true, Mem.check_true]
   congr 1; congr 1
-  · have := insMany_fix xs ys xs.length hx hy (Nat.le_refl _) ((ofList xs).insMany xs.length ys).head
+  · have := insMany_fix xs ys xs.length hx hy (Nat.le_refl _) ((ofList t xs).insMany xs.length ys).head
       (some (xs.length + ys.length - 1)) ys.length rfl (by rw [if_neg hxl]) (by simp)
     have e2 : ys.length - 1 + xs.length = xs.length + ys.length - 1 := by omega
-    simpa [Ptr.offset, e2] using this
+    simp [Ptr.offset, e2] at this ⊢; exact this
 
 theorem spliceAt_ofList (xs ys : List Nat) (i : Nat) (m : Mem) :
-    spliceAt (ofList xs) (ofList ys) i m =
-      ((LSeq.spliceAt false xs ys i).1, ofList (LSeq.spliceAt false xs ys i).2.1, ofList (LSeq.spliceAt false xs ys i).2.2, m) := by
+    spliceAt (ofList t xs) (ofList t2 ys) i m =
+      ((LSeq.spliceAt false xs ys i).1, ofList t (LSeq.spliceAt false xs ys i).2.1, ofList t2 (LSeq.spliceAt false xs ys i).2.2, m) := by
   unfold spliceAt LSeq.spliceAt
   by_cases hy : ys = []
   · subst hy; simp
@@ -194,9 +198,9 @@ theorem spliceAt_ofList (xs ys : List Nat) (i : Nat) (m : Mem) :
   by_cases hi : i < xs.length
   · have hx : xs ≠ [] := by intro e; subst e; simp at hi
     have hxl := length_ne_zero_of_ne_nil hx
-    have hh2 : (ofList ys).head = some 0 := by simp [ofList, hyl]
-    have ht2 : (ofList ys).tail = some (ys.length - 1) := by simp [ofList, hyl]
-    have hhp : (ofList xs).head = some 0 := by simp [ofList, hxl]
+    have hh2 : (ofList t2 ys).head = some 0 := by simp [ofList, hyl]
+    have ht2 : (ofList t2 ys).tail = some (ys.length - 1) := by simp [ofList, hyl]
+    have hhp : (ofList t xs).head = some 0 := by simp [ofList, hxl]
     have hpos : ∀ j, Ptr.pos (some j) = j := fun _ => rfl
     have hv2 : ys.length - 1 < ys.length := by omega
     rw [if_neg (by omega), getNodeAt_ofList]
@@ -222,10 +226,10 @@ theorem spliceAt_ofList (xs ys : List Nat) (i : Nat) (m : Mem) :
 
 theorem buildLoop_ofList (xs : List Nat) (sel : Nat → Option Nat) : ∀ (k j : Nat) (dst : List Nat) (m : Mem),
     j + k ≤ xs.length →
-    buildLoop (ofList xs) sel k (ptrAt xs.length j) (ofList dst) m =
+    buildLoop (ofList t xs) sel k (ptrAt xs.length j) (ofList t dst) m =
       let add := selMap sel ((xs.drop j).take k)
-      let r := Mem.buildChain add.length dst.length m
-      if r.1 then (.ok, ofList (dst ++ add), r.2) else (.errAlloc, {}, r.2)
+      let r := Mem.buildChain t add.length dst.length m
+      if r.1 then (.ok, ofList t (dst ++ add), r.2) else (.errAlloc, {}, r.2)
   | 0, j, dst, m, _ => by simp [buildLoop, selMap, Mem.buildChain]
   | k + 1, j, dst, m, h => by
     have hj : j < xs.length := by omega
@@ -241,62 +245,66 @@ theorem buildLoop_ofList (xs : List Nat) (sel : Nat → Option Nat) : ∀ (k j :
       rw [buildLoop_ofList xs sel k (j + 1) dst m (by omega)]
       rfl
     · simp only [hs, addLast_ofList, LSeq.addLast, List.length_cons, Mem.buildChain]
-      by_cases ha : m.alloc.1 = true
+      (try simp only [ofList_triple])
+      by_cases ha : (m.allocT t).1 = true
       · simp only [ha, if_true, bne_self_eq_false, Bool.false_eq_true, if_false, Bool.not_true]
-        rw [buildLoop_ofList xs sel k (j + 1) (dst ++ [y]) m.alloc.2 (by omega)]
+        rw [buildLoop_ofList xs sel k (j + 1) (dst ++ [y]) (m.allocT t).2 (by omega)]
         simp [selMap]
       · simp only [ha, Bool.not_false, if_true]
         have : (Stat.errAlloc != Stat.ok) = true := rfl
         simp [this, destroy_ofList]
 
 theorem sublist_ofList (xs : List Nat) (b e : Nat) (m : Mem) :
-    sublist (ofList xs) b e m =
+    sublist (ofList t xs) b e m =
       match (LSeq.sublist xs b e).2 with
       | none => ((LSeq.sublist xs b e).1, none, m)
-      | some add => builderResult add m := by
+      | some add => builderResult t add m := by
   unfold sublist LSeq.sublist
   by_cases hr : b > e ∨ e ≥ xs.length
   · have : (decide (b > e) || decide (e ≥ xs.length)) = true := by simpa using hr
     simp [hr, this]
-  · have : (decide (b > e) || decide (e ≥ (ofList xs).size)) = false := by simpa using hr
+  · have : (decide (b > e) || decide (e ≥ (ofList t xs).size)) = false := by simpa using hr
     simp only [this, Bool.false_eq_true, if_false, hr, new_eq, builderResult]
-    by_cases ha : m.alloc.1 = true
+    (try simp only [ofList_triple])
+    by_cases ha : (m.allocT t).1 = true
     · have hb : b < xs.length := by omega
       simp only [ha, if_true, getNodeAt_ofList, hb, bne_self_eq_false, Bool.false_eq_true, if_false,
         Bool.not_true]
-      rw [← ptrAt_lt _ _ hb, buildLoop_ofList xs some _ b [] m.alloc.2 (by omega)]
+      rw [← ptrAt_lt _ _ hb, buildLoop_ofList xs some _ b [] (m.allocT t).2 (by omega)]
       simp only [selMap_some, List.nil_append, List.length_nil]
-      generalize Mem.buildChain (List.take (e - b + 1) (List.drop b xs)).length 0 m.alloc.2 = bc
+      generalize Mem.buildChain t (List.take (e - b + 1) (List.drop b xs)).length 0 (m.allocT t).2 = bc
       by_cases hc : bc.1 = true <;> simp [hc]
     · simp [ha]
 
 theorem copy_ofList (cp : Nat → Nat) (xs : List Nat) (m : Mem) :
-    copy cp (ofList xs) m = builderResult (LSeq.copyDeep cp xs) m := by
+    copy cp (ofList t xs) m = builderResult t (LSeq.copyDeep cp xs) m := by
   unfold copy LSeq.copyDeep builderResult
   simp only [new_eq]
-  by_cases ha : m.alloc.1 = true
+  (try simp only [ofList_triple])
+  by_cases ha : (m.allocT t).1 = true
   · simp only [ha, if_true, Bool.not_true, Bool.false_eq_true, if_false, ofList_nodes]
-    rw [ofList_head_ptrAt, buildLoop_ofList xs _ xs.length 0 [] m.alloc.2 (by omega)]
+    rw [ofList_head_ptrAt, buildLoop_ofList xs _ xs.length 0 [] (m.allocT t).2 (by omega)]
     simp only [selMap_map, List.drop_zero, List.take_length, List.nil_append, List.length_nil]
-    generalize Mem.buildChain (List.map cp xs).length 0 m.alloc.2 = bc
+    generalize Mem.buildChain t (List.map cp xs).length 0 (m.allocT t).2 = bc
     by_cases hc : bc.1 = true <;> simp [hc]
   · simp [ha]
 
 theorem filter_ofList (p : Nat → Bool) (xs : List Nat) (m : Mem) :
-    filter p (ofList xs) m =
+    filter p (ofList t xs) m =
       match (LSeq.filter p xs).2 with
       | none => ((LSeq.filter p xs).1, none, m)
-      | some add => builderResult add m := by
+      | some add => builderResult t add m := by
   unfold filter LSeq.filter
   by_cases hx : xs = []
   · simp [hx]
   have hxl := length_ne_zero_of_ne_nil hx
   simp only [ofList_size, hxl, if_false, hx, new_eq, builderResult]
-  by_cases ha : m.alloc.1 = true
+  (try simp only [ofList_triple])
+  by_cases ha : (m.allocT t).1 = true
   · simp only [ha, if_true, Bool.not_true, Bool.false_eq_true, if_false, ofList_nodes]
-    rw [ofList_head_ptrAt, buildLoop_ofList xs _ xs.length 0 [] m.alloc.2 (by omega)]
+    rw [ofList_head_ptrAt, buildLoop_ofList xs _ xs.length 0 [] (m.allocT t).2 (by omega)]
     simp only [selMap_filter, List.drop_zero, List.take_length, List.nil_append, List.length_nil]
-    generalize Mem.buildChain (List.filter p xs).length 0 m.alloc.2 = bc
+    generalize Mem.buildChain t (List.filter p xs).length 0 (m.allocT t).2 = bc
     by_cases hc : bc.1 = true <;> simp [hc]
   · simp [ha]
 
